@@ -162,3 +162,74 @@ Proof. eexists. vm_compute. reflexivity. Qed.
 Example landscaper_hyp_satisfiable : exists v, landscaper true None None 3 [[(Fin 0, Fin 2); (Fin 1, PInf)]] 0 = ErrInfiniteGrid
   /\ landscaper true None (Some 2) 3 [[(Fin 0, Fin 2); (Fin 1, PInf)]] 0 = Ok v.
 Proof. eexists. split; vm_compute; reflexivity. Qed.
+
+(* ================= glue with C03 (exact sweep) and C01 (bottleneck): coq/Proofs/LandscapeGlue*.v, LandscapeStabP.v ================= *)
+From Persim Require Spec.LandscapeS Model.SweepM Spec.BottleneckS Proofs.LandscapeGlueP Proofs.LandscapeGlueArithP Proofs.LandscapeStabP.
+
+(* vectorize on the exact landscape of a diagram: for EVERY finite diagram of positive-length bars, every grid
+   (s, e, n), every depth k (returned or not: val_at reads 0 for a row that is not there) and every node i, np.interp
+   of the critical pairs the sweep (Model/SweepM.v, shortcut off) computes returns exactly the (k+1)-st largest tent
+   at the node: vectorize_exact composed with C03.sweep_correct and the well-formedness of the sweep's output *)
+Theorem vectorize_exact_on_diagrams : forall (bars : list bar) s e n, (forall a, In a bars -> fst a < snd a) ->
+  exists L, SweepM.sweep false bars = Some L /\ Forall wellformed_depth L /\
+    forall k i, (i < n)%nat -> val_at (vectorize_values L s e n) k i == land bars (S k) (node s e n i).
+Proof. exact LandscapeGlueArithP.vectorize_exact_on_diagrams_P. Qed.
+Print Assumptions vectorize_exact_on_diagrams.
+
+(* ... and through the public entry point PersLandscapeExact(dgms, hom_deg) (one trailing infinite bar dropped) *)
+Theorem vectorize_exact_on_exact_landscape : forall dgms h dg (bars : list bar) s e n, nth_error dgms h = Some dg ->
+  SweepM.finite_bars (SweepM.strip_trailing_inf dg) = Some bars -> (forall a, In a bars -> fst a < snd a) ->
+  exists L, SweepM.exact_landscape false true dgms h = SweepM.Ok L /\
+    forall k i, (i < n)%nat -> val_at (vectorize_values L s e n) k i == land bars (S k) (node s e n i).
+Proof. exact LandscapeGlueArithP.vectorize_exact_on_exact_landscape_P. Qed.
+Print Assumptions vectorize_exact_on_exact_landscape.
+
+(* T2 stability of the grid landscape: the sampled values of two diagrams inside [s, e] differ, at every depth and
+   node, by at most their bottleneck distance (Spec/BottleneckS.v) plus one grid step: approx_within_half_step twice
+   and C10.landscape_stability *)
+Theorem approx_landscape_stability : forall s e n (D D' : list bar) v k i, (2 <= n)%nat -> s < e ->
+  (forall bd, In bd D -> s <= fst bd <= e /\ s <= snd bd <= e) ->
+  (forall bd, In bd D' -> s <= fst bd <= e /\ s <= snd bd <= e) -> (i < n)%nat ->
+  BottleneckS.is_bottleneck D D' v ->
+  Qabs (val_at (approx_values s e n D) k i - val_at (approx_values s e n D') k i) <= v + step s e n.
+Proof. exact LandscapeStabP.approx_landscape_stability_P. Qed.
+Print Assumptions approx_landscape_stability.
+
+(* non-vacuity: a diagram with interacting bars, sampled on 0,1,..,8: depth 1 at node 3 is 2, depth 2 at node 3 is 1 *)
+Example vectorize_on_diagram_instance :
+  (forall a, In a [(1, 5); (2, 8); (3, 4)] -> fst a < snd a) /\
+  match SweepM.sweep false [(1, 5); (2, 8); (3, 4)] with
+  | Some L => Qeq_bool (val_at (vectorize_values L 0 8 9) 0 3) 2 && Qeq_bool (val_at (vectorize_values L 0 8 9) 1 3) 1
+              && Qeq_bool (land [(1, 5); (2, 8); (3, 4)] 2 (node 0 8 9 3)) 1
+  | None => false end = true.
+Proof. split. intros a H; simpl in H; repeat (destruct H as [H|H]; [subst a; reflexivity|]); contradiction.
+  vm_compute. reflexivity. Qed.
+(* the hypotheses of approx_landscape_stability are satisfiable (is_bottleneck [(0,2)] [] 1 is C01.spec_instance) *)
+Example approx_stability_hyp_satisfiable :
+  BottleneckS.is_bottleneck [(0, 2)] [] 1 /\ (forall bd, In bd [(0, 2)] -> 0 <= fst bd <= 4 /\ 0 <= snd bd <= 4) /\
+  Qabs (val_at (approx_values 0 4 5 [(0, 2)]) 0 1 - val_at (approx_values 0 4 5 []) 0 1) == 1.
+Proof. split; [|split].
+  - split.
+    + exists []. split; [|reflexivity]. split; [constructor|]. split; [constructor|]. intros p [].
+    + intros m (_ & _ & B). destruct m as [|p m]; [discriminate|].
+      destruct (B p (or_introl eq_refl)) as [_ H]. inversion H.
+  - intros bd [<-|[]]; simpl; lra.
+  - vm_compute. reflexivity. Qed.
+
+(* ... and through the constructor PersLandscapeApprox(start, stop, num_steps, dgms, hom_deg): two diagrams sampled on the
+   same grid (s, e, n) differ at every depth and node by at most the bottleneck distance of their finite bars plus one step *)
+Theorem approx_ctor_landscape_stability : forall start stop start' stop' n dgms h dgms' h' s e V V' v k i,
+  approx_ctor start stop n dgms h = Ok (s, e, V) -> approx_ctor start' stop' n dgms' h' = Ok (s, e, V') ->
+  (2 <= n)%nat -> s < e ->
+  (forall x y, In (Fin x, Fin y) (nth h dgms []) -> s <= x <= e /\ s <= y <= e) ->
+  (forall x y, In (Fin x, Fin y) (nth h' dgms' []) -> s <= x <= e /\ s <= y <= e) -> (i < n)%nat ->
+  BottleneckS.is_bottleneck (finite_bars (nth h dgms [])) (finite_bars (nth h' dgms' [])) v ->
+  Qabs (val_at V k i - val_at V' k i) <= v + step s e n.
+Proof. exact LandscapeStabP.approx_ctor_landscape_stability_P. Qed.
+Print Assumptions approx_ctor_landscape_stability.
+(* non-vacuity: the hypotheses are those of approx_ctor_within_half_step (ctor_hyp_satisfiable) and of
+   approx_landscape_stability (approx_stability_hyp_satisfiable); the two constructor calls below share the grid (0, 4, 5) *)
+Example ctor_stability_hyp_satisfiable : exists V V',
+  approx_ctor None None 5 [[(Fin 0, Fin 4); (Fin 1, Fin 3)]] 0 = Ok (0, 4, V) /\
+  approx_ctor (Some 0) (Some 4) 5 [[(Fin 0, Fin 3)]] 0 = Ok (0, 4, V').
+Proof. eexists. eexists. split; vm_compute; reflexivity. Qed.
